@@ -181,6 +181,17 @@ def run_net(case, res, log):
                 total_gap = sum(g for g, _ in rx[-1:])
                 if not (isinstance(exc, dns.exception.Timeout)):
                     raise Violation("C13:valid-stream-rejected", f"{tag}: {type(exc).__name__}({exc}) although stream and network were fine")
+        if exc is not None and isinstance(exc, dns.exception.Timeout) and used in ("tcp", "?") and net_cfg["connect"][0] == "ok":
+            # a stalled peer: the wait must end by the per-message timeout after the last data,
+            # and by the overall lifetime
+            last_data = max([t for t, c in rx if not isinstance(c, str)] + [0.0])
+            bound = last_data + net_cfg["timeout"] + net_cfg["connect"][1] + 0.1
+            if net_cfg["lifetime"] is not None:
+                bound = min(bound, net_cfg["lifetime"] + 0.1)
+            if udp_msgs is not None:
+                bound += net_cfg["timeout"] + 0.1
+            if VT.elapsed() > bound:
+                raise Violation("C13:timeout-too-late", f"{tag}: Timeout only after {VT.elapsed():.3f}s of simulated time (last data at {last_data:.3f}s, per-message timeout {net_cfg['timeout']}, lifetime {net_cfg['lifetime']})")
         outs[world] = ("exc", type(exc).__name__) if exc is not None else ("ok", Z.stable_hash(after))
         log.add(world, outs[world], transport, f, info["fired"], verdict[0])
         res.sim_seconds += VT.elapsed()
